@@ -179,7 +179,12 @@ func checkC08(c *Ctx) {
 			c.c07Read(b)
 		}
 	}, func(o *coreObl) (string, bool) { return "R08.7", o.Rule == "R07.2" })
-	c.borrow("C11", func() { c.c11Boundary() }, func(o *coreObl) (string, bool) { return "R08.7", o.Rule == "R11.1" })
+	c.borrow("C11", func() {
+		c.c11Boundary()
+		for _, b := range backends {
+			c.c11DeleteExpired(b) // cleanup acts on a key only when its entry has an expiry before the boundary
+		}
+	}, func(o *coreObl) (string, bool) { return "R08.7", o.Rule == "R11.1" || o.Rule == "R11.2" })
 }
 
 // c08RangeVarAddress: with the module's language version below go1.22 the variables of a range clause are shared by all iterations:
@@ -574,6 +579,29 @@ func (c *Ctx) c08SyncMapRMW(m string, p *pw.Path, report func(rule, kind, pos, m
 			return rec(x.Src)
 		}
 		return rec(v)
+	}
+	// a Delete of the sync.Map backend that reports success has removed the entry itself: the evidence is the result of one atomic
+	// LoadAndDelete / CompareAndDelete. A Load followed by Delete lets several concurrent Deletes of one key all report success —
+	// no order of the key's operations explains that.
+	if strings.HasSuffix(m, ".Delete") && len(p.Ret) == 1 {
+		if isNil, known := p.NilFact(p.Ret[0]); known && isNil {
+			atomicEvidence, plainDelete := false, (*pw.Event)(nil)
+			for _, ev := range p.Events {
+				switch syncMapOp(ev) {
+				case "LoadAndDelete", "CompareAndDelete":
+					if len(ev.Results) > 0 {
+						if t, k := p.Truth(ev.Results[len(ev.Results)-1]); k && t {
+							atomicEvidence = true
+						}
+					}
+				case "Delete":
+					plainDelete = ev
+				}
+			}
+			if !atomicEvidence && plainDelete != nil {
+				report("R08.2", "syncmap-check-then-delete", c.Pos(plainDelete.Pos), "Delete reports success on the evidence of an earlier Load and removes with a separate sync.Map.Delete: concurrent Deletes of the same key can all succeed", p)
+			}
+		}
 	}
 	for i, ev := range p.Events {
 		op := syncMapOp(ev)
